@@ -56,6 +56,8 @@ type Program struct {
 
 var fset = token.NewFileSet()
 var prog Program
+var egName = "eg"
+var ctxName = "ctx"
 
 func line(n ast.Node) int { return fset.Position(n.Pos()).Line }
 
@@ -89,6 +91,12 @@ func isRecv(e ast.Expr) (string, bool) {
 func isDoneRecv(e ast.Expr) bool {
 	s, ok := isRecv(e)
 	return ok && strings.HasSuffix(s, ".Done()")
+}
+
+// isDerivedDone: the receive is on the Done channel of the errgroup's derived context
+func isDerivedDone(e ast.Expr) bool {
+	s, ok := isRecv(e)
+	return ok && s == ctxName+".Done()"
 }
 
 func normResult(e ast.Expr) string {
@@ -297,7 +305,7 @@ func waitOne(s ast.Stmt, chName func(string) string) (*Instr, bool) {
 			return nil, false
 		}
 		c, ok := isRecv(e0.X)
-		if !ok || isDoneRecv(e0.X) || !isDoneRecv(e1.X) {
+		if !ok || isDoneRecv(e0.X) || !isDerivedDone(e1.X) {
 			return nil, false
 		}
 		rk, ok := retKind(c1.Body)
@@ -387,7 +395,7 @@ func parseThread(stmts []ast.Stmt, isMain bool) []Instr {
 			}
 			rhs := v.Rhs[0]
 			// _ = eg.Wait()
-			if exprStr(rhs) == "eg.Wait()" {
+			if exprStr(rhs) == egName+".Wait()" {
 				out = append(out, Instr{Op: "egwait", Line: line(v), Chk: false})
 				continue
 			}
@@ -452,7 +460,7 @@ func parseThread(stmts []ast.Stmt, isMain bool) []Instr {
 			continue
 		case *ast.IfStmt:
 			// if err := eg.Wait(); err != nil { return nil, err }
-			if v.Init != nil && exprStrStmt(v.Init) == "eg.Wait()" {
+			if v.Init != nil && exprStrStmt(v.Init) == egName+".Wait()" {
 				rk, ok := retKind(v.Body.List)
 				if ok {
 					out = append(out, Instr{Op: "egwait", Line: line(v), Chk: true, OnCtx: rk, RLine: retLine(v.Body.List)})
@@ -530,6 +538,16 @@ func main() {
 		}
 	}
 	prog.HasErr = len(prog.Results) > 0 && prog.Results[len(prog.Results)-1] == "error"
+	for _, st := range fn.Body.List {
+		if as, ok := st.(*ast.AssignStmt); ok && as.Tok == token.DEFINE && len(as.Rhs) == 1 {
+			rs := exprStr(as.Rhs[0])
+			if strings.Contains(rs, ".WithContext(") && len(as.Lhs) == 2 {
+				egName, ctxName = exprStr(as.Lhs[0]), exprStr(as.Lhs[1])
+			} else if strings.Contains(rs, ".Group{}") && len(as.Lhs) == 1 {
+				egName = exprStr(as.Lhs[0])
+			}
+		}
+	}
 	siteWalk(fn.Body)
 
 	stmts := fn.Body.List
@@ -562,13 +580,14 @@ func main() {
 			if len(v.Rhs) == 1 {
 				rs = exprStr(v.Rhs[0])
 			}
-			if len(v.Lhs) >= 1 && exprStr(v.Lhs[0]) == "eg" && v.Tok == token.DEFINE {
+			if len(v.Lhs) >= 1 && exprStr(v.Lhs[0]) == egName && v.Tok == token.DEFINE && (strings.Contains(rs, ".WithContext(") || strings.Contains(rs, ".Group{}")) {
 				if strings.Contains(rs, ".WithContext(") && len(v.Lhs) == 2 {
 					prog.EgForm = "withctx"
 					call := v.Rhs[0].(*ast.CallExpr)
 					prog.EgParent = exprStr(call.Args[0])
-					if exprStr(v.Lhs[1]) != "ctx" {
-						refuse(v, "derived context is not named ctx")
+					if exprStr(v.Lhs[1]) != prog.EgParent {
+						// the derived context lives in another variable than the parent: waits must use it
+						ctxName = exprStr(v.Lhs[1])
 					}
 				} else if strings.HasSuffix(rs, "errgroup.Group{}") || strings.Contains(rs, ".Group{}") {
 					prog.EgForm = "plain"
@@ -579,7 +598,7 @@ func main() {
 			}
 			mainStmts = append(mainStmts, s)
 		case *ast.ExprStmt:
-			if call, ok := v.X.(*ast.CallExpr); ok && exprStr(call.Fun) == "eg.Go" && len(call.Args) == 1 {
+			if call, ok := v.X.(*ast.CallExpr); ok && exprStr(call.Fun) == egName+".Go" && len(call.Args) == 1 {
 				if fl, ok := call.Args[0].(*ast.FuncLit); ok {
 					if len(mainStmts) != 0 {
 						refuse(v, "goroutine started after a main-thread statement")
